@@ -129,23 +129,66 @@ def history_probe_events(spec):
         except Exception:
             pass
     api.m.Amplifier().clone()
+    # ... and for other things that share objects with the module classes: MetaModules whose user-defined controllers mirror
+    # every controller with a negative minimum (built, saved, loaded, cloned), array payloads edited in place
+    for t, st in sorted(spec.items()):
+        cls = cl.get(t)
+        if cls is None or t == "MetaModule":
+            continue
+        idx = [i for i, c in enumerate(st["ctls"]) if c["kind"] in ("range", "compact", "nooffset") and c["min"] < 0][:8]
+        if not idx:
+            continue
+        try:
+            mm = api.m.MetaModule()
+            emb = api.Project()
+            tm = emb.new_module(cls)
+            mm.project = emb
+            emb.metamodule = mm
+            for k, i in enumerate(idx):
+                mm.mappings.values[k].module = tm.index
+                mm.mappings.values[k].controller = i
+            mm.user_defined_controllers = len(idx)
+            mm.update_user_defined_controllers()
+            data = api.Synth(mm).read()
+            api.read_sunvox_file(io.BytesIO(data))
+            mm.clone()
+        except Exception:
+            pass
+    try:
+        sv = api.m.SpectraVoice()
+        sv.harmonics[0].volume, sv.harmonics[0].width, sv.harmonics[0].freq_hz = 23, 11, 440
+        sv.harmonics[1].freq_hz = 880
+        ws = api.m.WaveShaper()
+        ws.curve.values[10] = 4242
+        ms = api.m.MultiSynth()
+        ms.nv_curve.values[3] = 7
+        mc_ = api.m.MultiCtl()
+        mc_.curve.values[5] = 99
+    except Exception:
+        pass
     events = []
     for t, st in sorted(spec.items()):
         cls = cl.get(t)
         if cls is None:
             continue
         names = list(cls.controllers)
+        try:
+            fresh = cls()
+            for i, c in enumerate(st["ctls"], 1):
+                events.append({"op": "fresh", "t": t, "i": i, "name": names[i - 1] if i - 1 < len(names) else "?", "got": readback(fresh, names[i - 1])})
+        except Exception:
+            pass
         for i, c in enumerate(st["ctls"], 1):
             if c["kind"] not in ("range", "compact", "nooffset"):
                 continue
-            for v in (c["min"] - 1, c["max"] + 1):
+            for v in (c["min"] - 1, c["max"] + 1, c["min"], c["max"]):
                 m = cls()
                 old = val(getattr(m, names[i - 1]))
                 out, _ = outcome_of(lambda: setattr(m, names[i - 1], v))
                 events.append({"op": "set", "t": t, "i": i, "u": 0, "strict": True, "how": "attr-after-loads",
                                "arg": {"k": "int", "v": v, "n": ""}, "old": old,
                                "outcome": "exception" if out.startswith("exception:") else out,
-                               "has": True, "got": val(getattr(m, names[i - 1]))})
+                               "has": True, "got": readback(m, names[i - 1])})
     return events
 
 
@@ -442,6 +485,28 @@ def _enumerate_file(args):
                     back.append((v, bk))
             out.append({"op": "raws", "t": t, "i": i, "u": 0, "lo": lo, "hi": hi, "complete": comp, "via": via,
                         "raws": runs(raws), "back": runs(back), "pat": None, "patends": patends})
+    # controller objects of the class that the YAML does not list (detached ones kept in a type-specific record, e.g. the
+    # Sampler's vibrato / fade-out settings): every value of the declared range through a file
+    listed = {c["name"] for c in st["ctls"]}
+    for name, cobj in cls.controllers.items():
+        vt = getattr(cobj, "value_type", None)
+        if name in listed or name.startswith("user_defined") or not hasattr(vt, "min") or not isinstance(getattr(vt, "min", None), int):
+            continue
+        lo, hi = int(vt.min), int(vt.max)
+        if hi - lo > 70000:
+            continue
+        back = []
+        for v in range(lo, hi + 1):
+            bk = -777777
+            try:
+                m = cls()
+                setattr(m, name, v)
+                q = api.read_sunvox_file(io.BytesIO(api.Synth(m).read()))
+                bk = val(getattr(q.module, name))
+            except Exception:
+                pass
+            back.append((v, bk))
+        out.append({"op": "filevalues", "t": t, "name": name, "lo": lo, "hi": hi, "back": runs(back)})
     return out
 
 
